@@ -30,6 +30,19 @@ class ResidualInjector(_Base):
             S.levels[0].status.residual = seq[k]
 
 
+class ContinueInjector(_Base):
+    """order 198 (before CheckConvergence at 200): raise S.status.force_continue at the scripted (slot, iter) positions
+    box['force_continue'] -- the flag shipped code raises in Adaptivity(avoid_restarts=True); box['forced'] records the calls."""
+
+    ORDER = 198
+
+    def check_iteration_status(self, controller, S, **kwargs):
+        box = self.params.box
+        if (S.status.slot, S.status.iter) in (box.get('force_continue') or ()):
+            S.status.force_continue = True
+            box.setdefault('forced', []).append((S.status.slot, S.status.iter))
+
+
 class DoneInjector(_Base):
     """order 250 (after CheckConvergence): S.status.done := table[slot][iter], forced True at iter >= maxiter;
     optional box['force_done'] = set of (slot, iter) at which force_done is raised."""
